@@ -33,7 +33,7 @@ Proof.
   - apply (q_perm _ Q). intros E. rewrite E in Hin. destruct Hin.
   - destruct (closed s) eqn:Ec; [|reflexivity]. rewrite (q_closed _ Q Ec) in Hin. destruct Hin.
   - pose proof (q_pc _ Q t Hin) as Hw.
-    destruct (pcof s t) as [| | |g []| | | | | | | | | | | | | | | | | | | | | | | | | ]; try discriminate Hw.
+    destruct (pcof s t) as [| | |g []| | | | | | | | | | | | | | | | | | | | | | | | | | | | | | ]; try discriminate Hw.
     exists g. reflexivity.
 Qed.
 
@@ -74,7 +74,7 @@ Lemma t_return_after_close c s t o : Reachable c s -> alive s = true -> closed s
 Proof. intros R. apply return_after_close, (reachable_inv c s R). Qed.
 
 (* ---- C07 *)
-Lemma t_resize_status c s t n : pcof s t = OResize n -> closed s = false ->
+Lemma t_resize_status c s t n : pcof s t = OResizeL n -> closed s = false ->
   exists s', step c s (Step t) = Some s' /\ maxs s' = Z.of_nat n
              /\ (size s' <= maxs s' \/ vec s' = []).
 Proof.
